@@ -17,16 +17,6 @@ open PebblesVerif.Spec PebblesVerif.Model.Introspect
 
 /-! ## the model's dispatch tables are the code's -/
 
-/-- field names each resolver has a `case` arm for (the literals of the `match`es in Model/Introspect.lean) -/
-def armsRoot : List String := ["__type", "__schema"]
-def armsSchema : List String := ["types", "queryType", "mutationType", "subscriptionType", "directives"]
-def armsTypeWrapper : List String := ["kind", "ofType"]
-def armsTypeNamed : List String := ["kind", "name", "fields", "description", "interfaces", "possibleTypes", "enumValues", "inputFields"]
-def armsField : List String := ["name", "description", "args", "type", "isDeprecated", "deprecationReason"]
-def armsDirective : List String := ["name", "description", "locations", "args"]
-def armsInputValue : List String := ["name", "description", "type", "defaultValue"]
-def armsEnumValue : List String := ["name", "description", "isDeprecated", "deprecationReason"]
-
 /-- The `switch f.Name` statements of introspection.go, regenerated from the source on every run,
     are the ones the model was written for: same arms, `default` arms only in `resolveType`,
     `__type(name:)` evaluated against the variables, root types by literal name. -/
@@ -192,19 +182,6 @@ def q1 : List ISel :=
 /-- the hypotheses of `C16_resolve_eq_spec_partial` are satisfiable, and its conclusion computes -/
 example : supportedSchema S1 = true ∧ supportedSel q1 = true ∧ isIntro q1 = true := by decide
 example : (resolve S1 S1.types.reverse S1.directives [] q1 == some (Spec.select [] q1 (Spec.introspect S1))) = true := by decide
-
-def agree (S : Schema) (tyOrd : List TypeDef) (vars : List (String × J)) (q : List ISel) : Bool :=
-  resolve S tyOrd S.directives vars q == some (Spec.select vars q (Spec.introspect S))
-
-theorem ne_of_agree_false {S : Schema} {tyOrd : List TypeDef} {vars : List (String × J)} {q : List ISel}
-    (h : agree S tyOrd vars q = false) : resolve S tyOrd S.directives vars q ≠ some (Spec.select vars q (Spec.introspect S)) := by
-  intro e
-  unfold agree at h
-  rw [e] at h
-  have : (some (Spec.select vars q (Spec.introspect S)) == some (Spec.select vars q (Spec.introspect S))) = true := by
-    show J.beq _ _ = true
-    exact J.beq_refl _
-  rw [this] at h; cases h
 
 /-- both feature sets are satisfiable together (the hypotheses of `C16_stackable_partial`) -/
 example : supportedSchema C15Witness.base = true ∧ supportedC15 C15Witness.base = true := by decide
